@@ -36,7 +36,7 @@ var tlsFaultPorts = map[string]string{
 // Case is one replayable input.
 type Case struct {
 	ID   string `json:"id"`
-	Kind string `json:"kind"` // cut | dial | tls | connect | malformed | client | repeat | counter | label | reply
+	Kind string `json:"kind"` // cut | dial | tls | connect | malformed | client | repeat | counter | label | reply | dialtl
 	// how the client asks: plain (GET http://), https (GET https://), mitm (inside an intercepted
 	// tunnel), connect (client CONNECT). For kind=client: the listener: plain | tls | mitm.
 	Via      string `json:"via"`
@@ -102,6 +102,13 @@ type Case struct {
 	// ("_" = absent or empty; "" = the basic-auth decision of this case is not judged); Method: GET | POST | CONNECT
 	Auth  string `json:"auth,omitempty"`
 	PAHex string `json:"pa_hex,omitempty"`
+	// dialtl (lattice.go): the dial phase against an address that drops SYNs, under one configuration of the time
+	// limits (Lattice = a key of latticeCfgs: who gives up first — the dialer's DialTimeout, dialvia's ConnectTimeout,
+	// within which of the 1..3 attempts), Scheme = what is dialled: "" the origin itself | http | https | socks5 (the
+	// upstream proxy of that scheme), GoneMs > 0: the client closes its connection that long after its request
+	Lattice string `json:"lattice,omitempty"`
+	Scheme  string `json:"scheme,omitempty"`
+	GoneMs  int    `json:"gone_ms,omitempty"`
 }
 
 func (c *Case) head() []byte { return core.MustUnHex(orEmpty(c.HeadHex)) }
@@ -188,6 +195,10 @@ func (c *Case) host() string {
 		return id + ".dial.test:" + p
 	case "tls":
 		return id + "." + c.Fault + ".test:" + tlsFaultPorts[c.Fault]
+	case "dialtl":
+		if c.Scheme == "" {
+			return id + ".dial.test:" + portBlackhole
+		}
 	}
 	if c.Via == "plain" {
 		return id + ".origin.test:" + portOrigin
@@ -540,5 +551,7 @@ func generate(r *core.Rand, quick bool) []*Case {
 	genLogModes(g, quick)
 	// N. Accept errors of the listener: the accept loop backs off and goes on, or returns (accept.go)
 	genAccept(g, quick)
+	// O. the dial phase as a lattice of time limits: who gives up first on an address that drops SYNs (lattice.go)
+	genLattice(g, quick)
 	return g.out
 }
